@@ -311,9 +311,15 @@ bool Uci::go_command(std::istringstream& istream)
         if (token == "ponder")
             limits.ponder = true;
         else if (token == "wtime")
+        {
             istream >> limits.timeleft[WHITE];
+            limits.clock = true;
+        }
         else if (token == "btime")
+        {
             istream >> limits.timeleft[BLACK];
+            limits.clock = true;
+        }
         else if (token == "winc")
             istream >> limits.timeinc[WHITE];
         else if (token == "binc")
